@@ -116,6 +116,8 @@ MUTANTS = [
     ("C07-no-restore-after-tag", "C07", [("                        if not self._exists(\"objects\", cid):", "                        if False:")]),
     ("C07-cid-wait-if-instead-of-while", "C07", [("                while cid in self.object_locked_cids_th:\n                    self.fhs_logger.debug(f\"Cid ({cid}) is locked. Waiting.\")\n                    self.object_cid_condition_th.wait()",
                                                   "                if cid in self.object_locked_cids_th:\n                    self.fhs_logger.debug(f\"Cid ({cid}) is locked. Waiting.\")\n                    self.object_cid_condition_th.wait()")]),
+    ("C07-cid-claim-appended-after-condition-released", "C07", [("                    self.object_cid_condition_th.wait()\n                self.object_locked_cids_th.append(cid)\n",
+                                                                  "                    self.object_cid_condition_th.wait()\n            self.object_locked_cids_th.append(cid)\n")]),
     ("C08-release-not-in-finally", "C08", [("                finally:\n                    # Release cid\n                    self._release_object_locked_cids(cid)\n\n            except OrphanPidRefsFileFound:",
                                            "                    self._release_object_locked_cids(cid)\n                finally:\n                    pass\n\n            except OrphanPidRefsFileFound:")]),
     ("C08-no-notify-on-pid-release", "C08", [("                self.object_locked_pids_th.remove(pid)\n                self.object_pid_condition_th.notify()", "                self.object_locked_pids_th.remove(pid)")]),
